@@ -72,6 +72,9 @@ func runOnce(prop, tier string, seed int64, repo, out string, findings []report.
 		rep.Count("module_packages", p.NModule)
 		rep.Count("all_packages", p.NAll)
 		if i == 0 {
+			for _, rf := range p.RenamedFields {
+				rep.Note("treated as renamed (same struct, type and tag as a field missing from the reference list): %s.%s is analysed as %s", rf.Type, rf.New, rf.Old)
+			}
 			for _, rn := range p.RenamedFuncs {
 				rep.Note("treated as renamed (same package, receiver and parameter types as a function missing from the reference list): %s is analysed as %s (%s)", rn.New, rn.Old, rn.Pos)
 			}
